@@ -129,6 +129,8 @@ pub mod verif {
     pub const RMW_POLLING: u32 = 6;
     pub const LOAD_BUF_TAIL: u32 = 7;
     pub const STORE_BUF_TAIL: u32 = 8;
+    /// Inside a critical section: the lock at the address is held.
+    pub const LOCKED: u32 = 9;
 
     static HOOK: AtomicUsize = AtomicUsize::new(0);
 
